@@ -1,21 +1,49 @@
 (** C04 -- Lattice terms and presets produce exactly the documented Hamiltonian.
-    Statements only; the proofs are in PV.PresetsBasics, PV.PresetsPrepare, PV.PresetsProofs.
+    Statements only; the proofs are in PV.PresetsPrepare, PV.PresetsLeaves, PV.PresetsProofs, PV.PresetsTransport,
+    PV.PresetsSU2 and PV.PresetsAgreement.
+
+    THE THEOREMS ARE ABOUT THE CONFIGURATION THE SOURCE TEXT OF THIS TREE HAS.  Three constants are regenerated
+    from /repo on every run by translator/gen_c04.py:
+      PVgen.Gen_IndexHamiltonian.prepare_first_by_index    first-factor test of IndexHamiltonian::prepare ([i==0] => true)
+      PVgen.Gen_MagnetizationCode.code_magnetization_half  addMagnetization passes Magnetization/2. to Level (=> true) or Magnetization
+      PVgen.Gen_LatticeDocs.doc_magnetization_half         the doxygen formula of addMagnetization carries the factor 1/2 (=> true) or not
+    and the statements below mention only
+      [prepare_code]          = IndexHam.prepare with [fixed := prepare_first_by_index]               (PV.PresetsConfig)
+      [addMagnetization_code] = the loop of addMagnetization, amplitude halved iff code_magnetization_half (PV.PresetsConfig)
+      [spec_magnetization]    = the documented operator, factor 1/2 iff doc_magnetization_half        (PV.PresetsSpec)
+    The lemmas they are closed with are proved for the repaired loop ([fixed = true]) and for code and documentation
+    of the same variant; [exact] type-checks because the generated constants COMPUTE to those values
+    (section 0 states the two agreement facts explicitly).  A change of IndexHamiltonian.cpp, LatticePresets.cpp or of the
+    documentation in LatticePresets.h that breaks the agreement therefore breaks these proof obligations; section 7 keeps
+    the refutations of the two disagreeing configurations that the check found in /repo (repaired by commits 698bb7e, 6442010).
 
     Reading guide.
-      - [Lattice.term L K]: a lattice term (operator sequence, site labels, orbitals, spins, value);
-        [Lattice.state]: sites + term storage; the presets of PV.Lattice are the loops of LatticePresets.cpp, their
-        term factories are translator output (PVgen.Gen_LatticePresets).
-      - [IndexHam.prepare ... fixed st]: model of IndexHamiltonian::prepare; [fixed = false] is the loop as
-        written ([if (tmp.isEmpty()) tmp = t1; else tmp *= t1;]), [fixed = true] the minimal repair.
-      - [coef_poly h s u] = <u| h |s> on bit strings (PV.PolySem, C05); [PresetsSpec.mat] are matrices given
-        by their entries, [meq] is equality on the M-mode Fock space; [PresetsSpec.spec_...] are the documented
-        operators of include/pomerol/LatticePresets.h; [term_matrix t] = Value * product of the Jordan-Wigner
-        matrices of the term's operators.
-      - K is any commutative ring ([ring_ok], C05); [khalf] with khalf + khalf = 1 where 1/2 or 1/4 occur. *)
-Require Import Bool List Arith ZArith Ring_theory.
+      - [Lattice.term L K]: a lattice term (operator sequence, site labels, orbitals, spins, value); [Lattice.state]:
+        sites + term storage; [Lattice.W] = (terms handed to TermStorage::addTerm, outcome) of one call; the presets of
+        PV.Lattice are the loops of LatticePresets.cpp, their term factories are translator output (PVgen.Gen_LatticePresets).
+      - [coef_poly h s u] = <u| h |s> on bit strings (PV.PolySem, C05); [PresetsSpec.mat] are matrices given by their
+        entries, [meq] is equality on the M-mode Fock space; [PresetsSpec.spec_...] are the documented operators of
+        include/pomerol/LatticePresets.h written with number operators and products of Jordan-Wigner matrices;
+        [term_matrix t] = Value * product of the Jordan-Wigner matrices of the term's operators, as written.
+      - K is any commutative ring ([ring_ok], C05) with an exact zero test; [khalf] with khalf + khalf = 1 where 1/2 or
+        1/4 occur; [kconj] is complex conjugation (the identity in the real build); a parameter x is real when kconj x = x.
+      - [idx l a z] is the ParticleIndex of (site label, orbital, spin) -- any map; [site_ok]: the modes of the site are
+        < M; [site_inj] / [sites_apart] / [sites_ok]: different (label, orbital, spin) are different modes (what
+        IndexClassification guarantees, C18).
+      - [kvops ...] is the arithmetic the presets perform on their parameters (x/2., x/4., 2.0*x, -x, x-y, |x| != 0). *)
+Require Import Bool List Arith ZArith Ring_theory Permutation.
 From PV Require Import Lattice.
-From PV Require Import Outcome Fock Poly PolySem PresetsSpec IndexHam PresetsBasics PresetsPrepare.
+From PV Require Import Outcome Fock Poly PolySem PresetsSpec IndexHam PresetsConfig PresetsBasics PresetsPrepare
+  PresetsLeaves PresetsProofs PresetsTransport PresetsSU2 PresetsAgreement.
+From PVgen Require Import Gen_LatticeDocs Gen_MagnetizationCode Gen_IndexHamiltonian.
 Import ListNotations.
+
+(** * 0. The source text and the documentation of this tree *)
+Theorem source_prepare_decides_first_factor_by_loop_index : prepare_first_by_index = true.
+Proof. exact PresetsAgreement.prepare_decides_first_factor_by_loop_index. Qed.
+
+Theorem source_magnetization_code_agrees_with_documentation : code_magnetization_half = doc_magnetization_half.
+Proof. exact PresetsAgreement.magnetization_code_agrees_with_documentation. Qed.
 
 Section Generic.
 Variable K : Type.
@@ -26,42 +54,394 @@ Variable M : nat.                              (* number of modes *)
 Variable L : Type.                             (* site labels *)
 Variable idx : L -> nat -> nat -> nat.         (* (label, orbital, spin) -> ParticleIndex *)
 
-(** * 1. IndexHamiltonian::prepare (repaired loop) builds the sum of the lattice's terms, any term length *)
+Local Notation prepare_code := (PresetsConfig.prepare_code L K k1 kadd kmul kopp kzero idx).
+Local Notation cp := (coef_poly K k0 k1 kadd kmul kopp).
+
+(** * 1. IndexHamiltonian::prepare builds the sum of the lattice's terms, each read as a product of creation and
+         annihilation operators in the library's index order -- terms of ANY length (2, 4, 6, ...), repeated operators included *)
 Theorem prepare_sound : forall st : Lattice.state L K,
   storage_ok K M L idx st ->            (* every stored term is well formed and mentions only modes < M *)
-  exists h, IndexHam.prepare L K k1 kadd kmul kopp kzero idx true st = Done h /\
+  exists h, prepare_code st = Done h /\
     poly_in_range K M h /\
     forall s u, length s = M -> length u = M ->
-      coef_poly K k0 k1 kadd kmul kopp h s u =
-      PolySem.ksum K k0 kadd (IndexHam.terms_read L K st)
-        (fun nt => term_matrix K k0 k1 kadd kmul kopp M L idx (snd nt) s u).
+      cp h s u = PolySem.ksum K k0 kadd (IndexHam.terms_read L K st)
+                   (fun nt => term_matrix K k0 k1 kadd kmul kopp M L idx (snd nt) s u).
 Proof. exact (PresetsPrepare.prepare_sound K k0 k1 kadd kmul ksub kopp kzero Hring M L idx). Qed.
 
 (** the order in which the terms were inserted is irrelevant: a lattice holding the terms [ts] *)
 Theorem prepare_of_terms : forall (m : site_map L) (ts : list (Lattice.term L K)),
   Forall (fun t => term_ok K M L idx (t_order t) t) ts ->
-  exists h, IndexHam.prepare L K k1 kadd kmul kopp kzero idx true (lattice_of K L m ts) = Done h /\
+  exists h, prepare_code (lattice_of K L m ts) = Done h /\
     poly_in_range K M h /\
     forall s u, length s = M -> length u = M ->
-      coef_poly K k0 k1 kadd kmul kopp h s u =
-      PolySem.ksum K k0 kadd ts
-        (fun t => if 1 <=? t_order t then x_term_matrix K k0 k1 kmul kopp L idx t s u else k0).
+      cp h s u = PolySem.ksum K k0 kadd ts
+                   (fun t => if 1 <=? t_order t then x_term_matrix K k0 k1 kmul kopp L idx t s u else k0).
 Proof. exact (PresetsPrepare.prepare_of_terms K k0 k1 kadd kmul ksub kopp kzero Hring M L idx). Qed.
 
 (** an arbitrary user term of 2, 4, 6 (any N >= 1) operators *)
 Theorem raw_term_sound : forall (m : site_map L) (t : Lattice.term L K),
   1 <= t_order t -> term_ok K M L idx (t_order t) t ->
-  exists h, IndexHam.prepare L K k1 kadd kmul kopp kzero idx true (lattice_of K L m [t]) = Done h /\
-    meq K M (coef_poly K k0 k1 kadd kmul kopp h) (term_matrix K k0 k1 kadd kmul kopp M L idx t).
+  exists h, prepare_code (lattice_of K L m [t]) = Done h /\
+    meq K M (cp h) (term_matrix K k0 k1 kadd kmul kopp M L idx t).
 Proof. exact (PresetsPrepare.raw_term_sound K k0 k1 kadd kmul ksub kopp kzero Hring M L idx). Qed.
+
+(** terms pushed into ANY lattice (well-formed storage, nothing stored above MaxTermOrder) add their operators to
+    its Hamiltonian *)
+Theorem prepare_after_push : forall (st : Lattice.state L K) (ts : list (Lattice.term L K)),
+  storage_ok K M L idx st -> storage_bounded K L st ->
+  Forall (fun t => term_ok K M L idx (t_order t) t) ts ->
+  exists h h', prepare_code st = Done h /\ prepare_code (push_all L K ts st) = Done h' /\
+    forall s u, length s = M -> length u = M ->
+      cp h' s u = kadd (cp h s u)
+                    (PolySem.ksum K k0 kadd ts
+                       (fun t => if 1 <=? t_order t then x_term_matrix K k0 k1 kmul kopp L idx t s u else k0)).
+Proof. exact (PresetsPrepare.prepare_after_push K k0 k1 kadd kmul ksub kopp kzero Hring M L idx). Qed.
+
+(** * 2. Every preset adds exactly the operator written in its documentation *)
+Variable khalf : K.
+Hypothesis Hhalf : kadd khalf khalf = k1.
+Variable kconj : K -> K.
+Variable leqb : L -> L -> bool.                (* equality of labels *)
+Hypothesis leqb_spec : forall a b, leqb a b = true <-> a = b.
+
+Local Notation vo := (kvops K kadd kmul ksub kopp kzero khalf kconj).
+Local Notation find_site := (Lattice.find_site L leqb).
+Local Notation site_ok := (PresetsProofs.site_ok M L idx).
+Local Notation madd := (PresetsSpec.m_add K kadd).
+
+(** [adds m w A]: the call [w] returns normally; IndexHamiltonian::prepare turns the terms it pushed (lattice with the
+    sites [m] holding only these terms) into a polynomial whose matrix is A; and pushed into ANY lattice, the terms
+    make its Hamiltonian grow by exactly A. *)
+Definition adds (m : site_map L) (w : Lattice.W L K) (A : mat K) : Prop :=
+  snd w = Done tt /\
+  (exists h, prepare_code (lattice_of K L m (fst w)) = Done h /\ meq K M (cp h) A) /\
+  (forall st : Lattice.state L K, storage_ok K M L idx st -> storage_bounded K L st ->
+     exists h h', prepare_code st = Done h /\ prepare_code (push_all L K (fst w) st) = Done h' /\
+       meq K M (cp h') (madd (cp h) A)).
+
+(** LatticePresets.h:128-133  sum_{alpha, sigma} eps n_{i alpha sigma}; any number of orbitals and spins *)
+Theorem addLevel_denotes : forall m l norb nspin eps,
+  find_site l m = Some (norb, nspin) -> site_ok l norb nspin ->
+  adds m (Lattice.addLevel L leqb K vo m l eps) (spec_level K k0 k1 kadd kmul L idx l norb nspin eps).
+Proof. exact (PresetsProofs.addLevel_denotes K k0 k1 kadd kmul ksub kopp kzero Hring khalf kconj M L leqb idx). Qed.
+
+(** LatticePresets.h:99-105  sum_{alpha, sigma > sigma'} U n n + sum eps n; any number of orbitals and spins, U = 0 / eps = 0 included *)
+Theorem addCoulombS_denotes : forall m l norb nspin U eps,
+  find_site l m = Some (norb, nspin) -> site_ok l norb nspin ->
+  adds m (Lattice.addCoulombS L leqb K vo m l U eps) (spec_coulombS K k0 k1 kadd kmul L idx l norb nspin U eps).
+Proof. exact (PresetsProofs.addCoulombS_denotes K k0 k1 kadd kmul ksub kopp kzero Hring khalf kconj M L leqb idx). Qed.
+
+(** LatticePresets.h:107-117  the Kanamori interaction with independent U, U', J; any number >= 2 of orbitals and of spins *)
+Theorem addCoulombP_denotes : forall m l norb nspin U Up J eps,
+  find_site l m = Some (norb, nspin) -> 2 <= norb -> 2 <= nspin -> site_ok l norb nspin ->
+  adds m (Lattice.addCoulombP L leqb K vo m l U Up J eps)
+       (spec_coulombP K k0 k1 kadd kmul ksub kopp khalf M L idx l norb nspin U Up J eps).
+Proof. exact (PresetsProofs.addCoulombP_denotes K k0 k1 kadd kmul ksub kopp kzero Hring khalf kconj M L leqb idx). Qed.
+
+(** LatticePresets.h:118-119  the shortcut: the same formula with U' = U - 2J *)
+Theorem addCoulombP3_denotes : forall m l norb nspin U J eps,
+  find_site l m = Some (norb, nspin) -> 2 <= norb -> 2 <= nspin -> site_ok l norb nspin ->
+  adds m (Lattice.addCoulombP3 L leqb K vo m l U J eps)
+       (spec_coulombP3 K k0 k1 kadd kmul ksub kopp khalf M L idx l norb nspin U J eps).
+Proof. exact (PresetsProofs.addCoulombP3_denotes K k0 k1 kadd kmul ksub kopp kzero Hring khalf kconj M L leqb idx). Qed.
+
+(** LatticePresets.h:121-126  the code of this tree adds the operator the header of this tree documents *)
+Theorem addMagnetization_denotes : forall m l norb mH,
+  find_site l m = Some (norb, 2) -> site_ok l norb 2 ->
+  adds m (PresetsConfig.addMagnetization_code L leqb K vo m l mH)
+       (spec_magnetization K k0 k1 kadd kmul ksub khalf L idx l norb mH).
+Proof.
+  exact (PresetsProofs.addMagnetization_with_denotes K k0 k1 kadd kmul ksub kopp kzero Hring khalf kconj M L leqb idx
+           code_magnetization_half).
+Qed.
+
+(** LatticePresets.h:135-145  sum_alpha J Sz_{i alpha} Sz_{j alpha}; two sites of equal shape or one site twice *)
+Theorem addSzSz_denotes : forall cfg m l1 l2 norb J,
+  find_site l1 m = Some (norb, 2) -> find_site l2 m = Some (norb, 2) ->
+  site_ok l1 norb 2 -> site_ok l2 norb 2 ->
+  adds m (Lattice.addSzSz L leqb K vo cfg m l1 l2 J) (spec_szsz K k0 k1 kadd kmul ksub khalf M L idx l1 l2 norb J).
+Proof. exact (PresetsProofs.addSzSz_denotes K k0 k1 kadd kmul ksub kopp kzero Hring khalf kconj M L leqb leqb_spec idx). Qed.
+
+(** LatticePresets.h:147-154  sum_alpha J S_{i alpha} . S_{j alpha} = J (Sz Sz + 1/2 (S+ S- + S- S+)) *)
+Theorem addSS_denotes : forall cfg m l1 l2 norb J,
+  find_site l1 m = Some (norb, 2) -> find_site l2 m = Some (norb, 2) ->
+  site_ok l1 norb 2 -> site_ok l2 norb 2 ->
+  adds m (Lattice.addSS L leqb K vo cfg m l1 l2 J) (spec_ss K k0 k1 kadd kmul ksub kopp khalf M L idx l1 l2 norb J).
+Proof. exact (PresetsProofs.addSS_denotes K k0 k1 kadd kmul ksub kopp kzero Hring khalf kconj M L leqb leqb_spec idx). Qed.
+
+(** LatticePresets.h:156-172  t c^+_{i o1 s1} c_{j o2 s2} + conj(t) c^+_{j o2 s2} c_{i o1 s1}: the Hermitian conjugate is added;
+    two sites or one site, t = 0 included *)
+Theorem addHopping8_denotes : forall m l1 l2 t o1 o2 s1 s2 n1 p1 n2 p2,
+  find_site l1 m = Some (n1, p1) -> find_site l2 m = Some (n2, p2) ->
+  o1 < n1 -> s1 < p1 -> o2 < n2 -> s2 < p2 -> site_ok l1 n1 p1 -> site_ok l2 n2 p2 ->
+  adds m (Lattice.addHopping8 L leqb K vo m l1 l2 t o1 o2 s1 s2)
+       (spec_hopping8 K k0 k1 kadd kmul kopp kconj M L idx l1 l2 t o1 o2 s1 s2).
+Proof. exact (PresetsProofs.addHopping8_denotes K k0 k1 kadd kmul ksub kopp kzero Hring khalf kconj M L leqb idx). Qed.
+
+Theorem addHopping7_denotes : forall m l1 l2 t o1 o2 z n1 p1 n2 p2,
+  find_site l1 m = Some (n1, p1) -> find_site l2 m = Some (n2, p2) ->
+  o1 < n1 -> z < p1 -> o2 < n2 -> z < p2 -> site_ok l1 n1 p1 -> site_ok l2 n2 p2 ->
+  adds m (Lattice.addHopping7 L leqb K vo m l1 l2 t o1 o2 z)
+       (spec_hopping7 K k0 k1 kadd kmul kopp kconj M L idx l1 l2 t o1 o2 z).
+Proof. exact (PresetsProofs.addHopping7_denotes K k0 k1 kadd kmul ksub kopp kzero Hring khalf kconj M L leqb idx). Qed.
+
+(** sum over the spins (sites with the same number of spins) *)
+Theorem addHopping6_denotes : forall cfg m l1 l2 t o1 o2 n1 n2 p,
+  find_site l1 m = Some (n1, p) -> find_site l2 m = Some (n2, p) ->
+  o1 < n1 -> o2 < n2 -> site_ok l1 n1 p -> site_ok l2 n2 p ->
+  adds m (Lattice.addHopping6 L leqb K vo cfg m l1 l2 t o1 o2)
+       (spec_hopping6 K k0 k1 kadd kmul kopp kconj M L idx l1 l2 p t o1 o2).
+Proof. exact (PresetsProofs.addHopping6_denotes K k0 k1 kadd kmul ksub kopp kzero Hring khalf kconj M L leqb idx). Qed.
+
+(** sum over spins and orbitals (sites of the same shape) *)
+Theorem addHopping4_denotes : forall cfg m l1 l2 t n p,
+  find_site l1 m = Some (n, p) -> find_site l2 m = Some (n, p) -> site_ok l1 n p -> site_ok l2 n p ->
+  adds m (Lattice.addHopping4 L leqb K vo cfg m l1 l2 t) (spec_hopping4 K k0 k1 kadd kmul kopp kconj M L idx l1 l2 n p t).
+Proof. exact (PresetsProofs.addHopping4_denotes K k0 k1 kadd kmul ksub kopp kzero Hring khalf kconj M L leqb idx). Qed.
+
+(** * 3. The executable forms of the specification that the correspondence check evaluates (PresetsSpec.xspec_...:
+         Jordan-Wigner action of operator strings instead of nested matrix products) equal the documented operators *)
+Theorem xspec_coulombP_ok : forall l norb nspin U Up J eps,
+  meq K M (spec_coulombP K k0 k1 kadd kmul ksub kopp khalf M L idx l norb nspin U Up J eps)
+          (xspec_coulombP K k0 k1 kadd kmul ksub kopp khalf L idx l norb nspin U Up J eps).
+Proof. exact (PresetsProofs.xspec_coulombP_ok K k0 k1 kadd kmul ksub kopp kzero Hring khalf M L idx). Qed.
+
+Theorem xspec_szsz_ok : forall l1 l2 norb J,
+  meq K M (spec_szsz K k0 k1 kadd kmul ksub khalf M L idx l1 l2 norb J) (xspec_szsz K k0 k1 kadd kmul ksub khalf L idx l1 l2 norb J).
+Proof. exact (PresetsProofs.xspec_szsz_ok K k0 k1 kadd kmul ksub kopp kzero Hring khalf M L idx). Qed.
+
+Theorem xspec_ss_ok : forall l1 l2 norb J,
+  meq K M (spec_ss K k0 k1 kadd kmul ksub kopp khalf M L idx l1 l2 norb J) (xspec_ss K k0 k1 kadd kmul ksub kopp khalf L idx l1 l2 norb J).
+Proof. exact (PresetsProofs.xspec_ss_ok K k0 k1 kadd kmul ksub kopp kzero Hring khalf M L idx). Qed.
+
+Theorem xspec_hopping8_ok : forall l1 l2 t o1 o2 s1 s2,
+  meq K M (spec_hopping8 K k0 k1 kadd kmul kopp kconj M L idx l1 l2 t o1 o2 s1 s2)
+          (xspec_hopping8 K k0 k1 kadd kmul kopp kconj L idx l1 l2 t o1 o2 s1 s2).
+Proof. exact (PresetsProofs.xspec_hopping8_ok K k0 k1 kadd kmul ksub kopp kzero Hring kconj M L idx). Qed.
+
+Theorem xspec_hopping6_ok : forall l1 l2 p t o1 o2,
+  meq K M (spec_hopping6 K k0 k1 kadd kmul kopp kconj M L idx l1 l2 p t o1 o2)
+          (xspec_hopping6 K k0 k1 kadd kmul kopp kconj L idx l1 l2 p t o1 o2).
+Proof. exact (PresetsProofs.xspec_hopping6_ok K k0 k1 kadd kmul ksub kopp kzero Hring kconj M L idx). Qed.
+
+Theorem xspec_hopping4_ok : forall l1 l2 n p t,
+  meq K M (spec_hopping4 K k0 k1 kadd kmul kopp kconj M L idx l1 l2 n p t)
+          (xspec_hopping4 K k0 k1 kadd kmul kopp kconj L idx l1 l2 n p t).
+Proof. exact (PresetsProofs.xspec_hopping4_ok K k0 k1 kadd kmul ksub kopp kzero Hring kconj M L idx). Qed.
+
+(** * 4. The result is Hermitian.
+         Hypotheses: [kconj] is a ring involution (the identity in the real build, complex conjugation in the complex build);
+         the parameters of the interaction / level / magnetic / exchange presets are real (kconj x = x) -- hopping with ANY
+         amplitude; for the Kanamori and the two-site exchange presets different (orbital, spin) are different modes. *)
+Hypothesis conj0 : kconj k0 = k0.
+Hypothesis conj1 : kconj k1 = k1.
+Hypothesis conj_add : forall a b, kconj (kadd a b) = kadd (kconj a) (kconj b).
+Hypothesis conj_mul : forall a b, kconj (kmul a b) = kmul (kconj a) (kconj b).
+Hypothesis conj_opp : forall a, kconj (kopp a) = kopp (kconj a).
+Hypothesis conj_invol : forall a, kconj (kconj a) = a.
+Local Notation hermitian := (m_hermitian K kconj M).
+
+Theorem addLevel_hermitian : forall m l norb nspin eps h,
+  find_site l m = Some (norb, nspin) -> site_ok l norb nspin -> kconj eps = eps ->
+  prepare_code (lattice_of K L m (fst (Lattice.addLevel L leqb K vo m l eps))) = Done h -> hermitian (cp h).
+Proof.
+  exact (PresetsProofs.addLevel_hermitian K k0 k1 kadd kmul ksub kopp kzero Hring khalf kconj M L leqb idx
+           conj0 conj1 conj_add conj_mul).
+Qed.
+
+Theorem addCoulombS_hermitian : forall m l norb nspin U eps h,
+  find_site l m = Some (norb, nspin) -> site_ok l norb nspin -> kconj U = U -> kconj eps = eps ->
+  prepare_code (lattice_of K L m (fst (Lattice.addCoulombS L leqb K vo m l U eps))) = Done h -> hermitian (cp h).
+Proof.
+  exact (PresetsProofs.addCoulombS_hermitian K k0 k1 kadd kmul ksub kopp kzero Hring khalf kconj M L leqb idx
+           conj0 conj1 conj_add conj_mul).
+Qed.
+
+Theorem addCoulombP_hermitian : forall m l norb nspin U Up J eps h,
+  find_site l m = Some (norb, nspin) -> 2 <= norb -> 2 <= nspin -> site_ok l norb nspin -> site_inj L idx l norb nspin ->
+  kconj U = U -> kconj Up = Up -> kconj J = J -> kconj eps = eps ->
+  prepare_code (lattice_of K L m (fst (Lattice.addCoulombP L leqb K vo m l U Up J eps))) = Done h -> hermitian (cp h).
+Proof.
+  exact (PresetsProofs.addCoulombP_hermitian K k0 k1 kadd kmul ksub kopp kzero Hring khalf Hhalf kconj M L leqb idx
+           conj0 conj1 conj_add conj_mul conj_opp).
+Qed.
+
+Theorem addMagnetization_hermitian : forall m l norb mH h,
+  find_site l m = Some (norb, 2) -> site_ok l norb 2 -> kconj mH = mH ->
+  prepare_code (lattice_of K L m (fst (PresetsConfig.addMagnetization_code L leqb K vo m l mH))) = Done h -> hermitian (cp h).
+Proof.
+  exact (PresetsProofs.addMagnetization_with_hermitian K k0 k1 kadd kmul ksub kopp kzero Hring khalf Hhalf kconj M L leqb idx
+           conj0 conj1 conj_add conj_mul conj_opp code_magnetization_half).
+Qed.
+
+Theorem addSzSz_hermitian : forall cfg m l1 l2 norb J h,
+  find_site l1 m = Some (norb, 2) -> find_site l2 m = Some (norb, 2) ->
+  site_ok l1 norb 2 -> site_ok l2 norb 2 -> kconj J = J ->
+  prepare_code (lattice_of K L m (fst (Lattice.addSzSz L leqb K vo cfg m l1 l2 J))) = Done h -> hermitian (cp h).
+Proof.
+  exact (PresetsProofs.addSzSz_hermitian K k0 k1 kadd kmul ksub kopp kzero Hring khalf Hhalf kconj M L leqb leqb_spec idx
+           conj0 conj1 conj_add conj_mul conj_opp).
+Qed.
+
+Theorem addSS_hermitian : forall cfg m l1 l2 norb J h,
+  find_site l1 m = Some (norb, 2) -> find_site l2 m = Some (norb, 2) ->
+  site_ok l1 norb 2 -> site_ok l2 norb 2 -> (l1 = l2 \/ sites_apart L idx l1 l2 norb 2) -> kconj J = J ->
+  prepare_code (lattice_of K L m (fst (Lattice.addSS L leqb K vo cfg m l1 l2 J))) = Done h -> hermitian (cp h).
+Proof.
+  exact (PresetsProofs.addSS_hermitian K k0 k1 kadd kmul ksub kopp kzero Hring khalf Hhalf kconj M L leqb leqb_spec idx
+           conj0 conj1 conj_add conj_mul conj_opp conj_invol).
+Qed.
+
+(** hopping: any amplitude, real or complex; same-site and two-site *)
+Theorem addHopping8_hermitian : forall m l1 l2 t o1 o2 s1 s2 n1 p1 n2 p2 h,
+  find_site l1 m = Some (n1, p1) -> find_site l2 m = Some (n2, p2) ->
+  o1 < n1 -> s1 < p1 -> o2 < n2 -> s2 < p2 -> site_ok l1 n1 p1 -> site_ok l2 n2 p2 ->
+  prepare_code (lattice_of K L m (fst (Lattice.addHopping8 L leqb K vo m l1 l2 t o1 o2 s1 s2))) = Done h -> hermitian (cp h).
+Proof.
+  exact (PresetsProofs.addHopping8_hermitian K k0 k1 kadd kmul ksub kopp kzero Hring khalf kconj M L leqb idx
+           conj0 conj1 conj_add conj_mul conj_opp conj_invol).
+Qed.
+
+Theorem addHopping6_hermitian : forall cfg m l1 l2 t o1 o2 n1 n2 p h,
+  find_site l1 m = Some (n1, p) -> find_site l2 m = Some (n2, p) ->
+  o1 < n1 -> o2 < n2 -> site_ok l1 n1 p -> site_ok l2 n2 p ->
+  prepare_code (lattice_of K L m (fst (Lattice.addHopping6 L leqb K vo cfg m l1 l2 t o1 o2))) = Done h -> hermitian (cp h).
+Proof.
+  exact (PresetsProofs.addHopping6_hermitian K k0 k1 kadd kmul ksub kopp kzero Hring khalf kconj M L leqb idx
+           conj0 conj1 conj_add conj_mul conj_opp conj_invol).
+Qed.
+
+Theorem addHopping4_hermitian : forall cfg m l1 l2 t n p h,
+  find_site l1 m = Some (n, p) -> find_site l2 m = Some (n, p) -> site_ok l1 n p -> site_ok l2 n p ->
+  prepare_code (lattice_of K L m (fst (Lattice.addHopping4 L leqb K vo cfg m l1 l2 t))) = Done h -> hermitian (cp h).
+Proof.
+  exact (PresetsProofs.addHopping4_hermitian K k0 k1 kadd kmul ksub kopp kzero Hring khalf kconj M L leqb idx
+           conj0 conj1 conj_add conj_mul conj_opp conj_invol).
+Qed.
+
+(** raw terms: a list of terms closed under adjoints ([term_adj]: reversed operator sequence with creation and annihilation
+    exchanged, conjugated value) sums to a Hermitian matrix; a user term together with its conjugate gives a Hermitian Hamiltonian *)
+Theorem adjoint_closed_hermitian : forall ts : list (Lattice.term L K),
+  Forall (fun t => term_ok K M L idx (t_order t) t) ts -> Permutation (map (term_adj K kconj L) ts) ts ->
+  hermitian (fun s u => PolySem.ksum K k0 kadd ts (fun t => x_term_matrix K k0 k1 kmul kopp L idx t s u)).
+Proof.
+  exact (PresetsProofs.adjoint_closed_hermitian K k0 k1 kadd kmul ksub kopp kzero Hring kconj M L idx
+           conj0 conj1 conj_add conj_mul conj_opp).
+Qed.
+
+Theorem raw_term_with_hc_hermitian : forall m (t : Lattice.term L K), 1 <= t_order t -> term_ok K M L idx (t_order t) t ->
+  exists h, prepare_code (lattice_of K L m [t; term_adj K kconj L t]) = Done h /\ hermitian (cp h).
+Proof.
+  exact (PresetsProofs.raw_term_with_hc_hermitian K k0 k1 kadd kmul ksub kopp kzero Hring kconj M L idx
+           conj0 conj1 conj_add conj_mul conj_opp conj_invol).
+Qed.
+
+(** * 5. SU(2): the Kanamori interaction with U' = U - 2J and the spin-spin exchange commute with the total-spin raising and
+         lowering operators S^+_tot = sum c^+_{up} c_{down}, S^-_tot = its adjoint, summed over ANY collection [sites] of
+         two-spin sites (label, number of orbitals) that contains the sites acted on; every number of orbitals; every
+         placement of the modes in the index space. *)
+Local Notation Splus := (m_Splus_tot K k0 k1 kadd kmul kopp M L idx).
+Local Notation Sminus := (m_Sminus_tot K k0 k1 kadd kmul kopp M L idx).
+Local Notation comm := (m_comm K k0 kadd kmul ksub M).
+Local Notation zero := (m_zero K k0).
+
+(** the documented operators *)
+Theorem kanamori_su2 : forall sites l norb U J eps, sites_ok M L idx sites -> In (l, norb) sites ->
+  meq K M (comm (spec_coulombP3 K k0 k1 kadd kmul ksub kopp khalf M L idx l norb 2 U J eps) (Splus sites)) zero /\
+  meq K M (comm (spec_coulombP3 K k0 k1 kadd kmul ksub kopp khalf M L idx l norb 2 U J eps) (Sminus sites)) zero.
+Proof. exact (PresetsSU2.kanamori_su2_sites K k0 k1 kadd kmul ksub kopp kzero Hring khalf Hhalf M L idx). Qed.
+
+Theorem ss_su2 : forall sites l1 l2 norb J, sites_ok M L idx sites -> In (l1, norb) sites -> In (l2, norb) sites ->
+  meq K M (comm (spec_ss K k0 k1 kadd kmul ksub kopp khalf M L idx l1 l2 norb J) (Splus sites)) zero /\
+  meq K M (comm (spec_ss K k0 k1 kadd kmul ksub kopp khalf M L idx l1 l2 norb J) (Sminus sites)) zero.
+Proof. exact (PresetsSU2.ss_su2_sites K k0 k1 kadd kmul ksub kopp kzero Hring khalf Hhalf M L idx leqb leqb_spec). Qed.
+
+(** the Hamiltonians the presets produce *)
+Theorem addCoulombP3_su2 : forall sites m l norb U J eps h,
+  sites_ok M L idx sites -> In (l, norb) sites -> find_site l m = Some (norb, 2) -> 2 <= norb ->
+  prepare_code (lattice_of K L m (fst (Lattice.addCoulombP3 L leqb K vo m l U J eps))) = Done h ->
+  meq K M (comm (cp h) (Splus sites)) zero /\ meq K M (comm (cp h) (Sminus sites)) zero.
+Proof. exact (PresetsSU2.addCoulombP3_su2 K k0 k1 kadd kmul ksub kopp kzero Hring khalf Hhalf M L idx leqb kconj). Qed.
+
+Theorem addSS_su2 : forall cfg sites m l1 l2 norb J h,
+  sites_ok M L idx sites -> In (l1, norb) sites -> In (l2, norb) sites ->
+  find_site l1 m = Some (norb, 2) -> find_site l2 m = Some (norb, 2) ->
+  prepare_code (lattice_of K L m (fst (Lattice.addSS L leqb K vo cfg m l1 l2 J))) = Done h ->
+  meq K M (comm (cp h) (Splus sites)) zero /\ meq K M (comm (cp h) (Sminus sites)) zero.
+Proof. exact (PresetsSU2.addSS_su2 K k0 k1 kadd kmul ksub kopp kzero Hring khalf Hhalf M L idx leqb leqb_spec kconj). Qed.
+
+(** more than the property asks: the Kanamori operator as documented (density-density + spin-flip + pair-hopping with the
+    coefficients U, U', (U'-J)/2, -J) commutes with S^+-_tot for EVERY U' *)
+Theorem addCoulombP_su2_every_Uprime : forall sites m l norb U Up J eps h,
+  sites_ok M L idx sites -> In (l, norb) sites -> find_site l m = Some (norb, 2) -> 2 <= norb ->
+  prepare_code (lattice_of K L m (fst (Lattice.addCoulombP L leqb K vo m l U Up J eps))) = Done h ->
+  meq K M (comm (cp h) (Splus sites)) zero /\ meq K M (comm (cp h) (Sminus sites)) zero.
+Proof. exact (PresetsSU2.addCoulombP_su2 K k0 k1 kadd kmul ksub kopp kzero Hring khalf Hhalf M L idx leqb kconj). Qed.
+
+(** * 6. Code and documentation of addMagnetization must be of the same variant: each variant of the code adds the operator
+         of the same variant of the documentation, and (section 7) not that of the other *)
+Theorem addMagnetization_same_variant : forall b : bool,
+  addMagnetization_denotes_stmt K k0 k1 kadd kmul ksub kopp kzero khalf kconj b b.
+Proof. exact (PresetsProofs.addMagnetization_denotes_same_variant K k0 k1 kadd kmul ksub kopp kzero Hring khalf kconj). Qed.
+
+(** * 7. The two defects the check found in /repo, kept as refutations of the statements one would like to have *)
+Hypothesis Hnontrivial : k1 <> k0.
+
+(** code passing the amplitude as given against the documented factor 1/2 (before commit 6442010), and vice versa *)
+Theorem addMagnetization_denotes_refuted : ~ addMagnetization_denotes_stmt K k0 k1 kadd kmul ksub kopp kzero khalf kconj false true.
+Proof. exact (PresetsProofs.addMagnetization_denotes_refuted K k0 k1 kadd kmul ksub kopp kzero Hring khalf Hhalf kconj Hnontrivial). Qed.
+
+Theorem addMagnetization_mixed_variants_refuted : forall b : bool,
+  ~ addMagnetization_denotes_stmt K k0 k1 kadd kmul ksub kopp kzero khalf kconj b (negb b).
+Proof. exact (PresetsProofs.addMagnetization_denotes_mixed_refuted K k0 k1 kadd kmul ksub kopp kzero Hring khalf Hhalf kconj Hnontrivial). Qed.
 
 End Generic.
 
-(** * 2. The loop as written does NOT have the property (witness: 1 * c^+_0 c^+_0 c_1 c_2) *)
+(** IndexHamiltonian::prepare with the first-factor test [tmp.isEmpty()] (before commit 698bb7e) does NOT have property 1
+    (witness: 1 * c^+_0 c^+_0 c_1 c_2 contributes c_1 c_2) *)
 Theorem prepare_sound_refuted : ~ prepare_sound_stmt false.
 Proof. exact PresetsPrepare.prepare_sound_refuted. Qed.
 
+Print Assumptions source_prepare_decides_first_factor_by_loop_index.
+Print Assumptions source_magnetization_code_agrees_with_documentation.
 Print Assumptions prepare_sound.
 Print Assumptions prepare_of_terms.
 Print Assumptions raw_term_sound.
+Print Assumptions prepare_after_push.
+Print Assumptions addLevel_denotes.
+Print Assumptions addCoulombS_denotes.
+Print Assumptions addCoulombP_denotes.
+Print Assumptions addCoulombP3_denotes.
+Print Assumptions addMagnetization_denotes.
+Print Assumptions addSzSz_denotes.
+Print Assumptions addSS_denotes.
+Print Assumptions addHopping8_denotes.
+Print Assumptions addHopping7_denotes.
+Print Assumptions addHopping6_denotes.
+Print Assumptions addHopping4_denotes.
+Print Assumptions xspec_coulombP_ok.
+Print Assumptions xspec_szsz_ok.
+Print Assumptions xspec_ss_ok.
+Print Assumptions xspec_hopping8_ok.
+Print Assumptions xspec_hopping6_ok.
+Print Assumptions xspec_hopping4_ok.
+Print Assumptions addLevel_hermitian.
+Print Assumptions addCoulombS_hermitian.
+Print Assumptions addCoulombP_hermitian.
+Print Assumptions addMagnetization_hermitian.
+Print Assumptions addSzSz_hermitian.
+Print Assumptions addSS_hermitian.
+Print Assumptions addHopping8_hermitian.
+Print Assumptions addHopping6_hermitian.
+Print Assumptions addHopping4_hermitian.
+Print Assumptions adjoint_closed_hermitian.
+Print Assumptions raw_term_with_hc_hermitian.
+Print Assumptions kanamori_su2.
+Print Assumptions ss_su2.
+Print Assumptions addCoulombP3_su2.
+Print Assumptions addSS_su2.
+Print Assumptions addCoulombP_su2_every_Uprime.
+Print Assumptions addMagnetization_same_variant.
+Print Assumptions addMagnetization_denotes_refuted.
+Print Assumptions addMagnetization_mixed_variants_refuted.
 Print Assumptions prepare_sound_refuted.
